@@ -21,7 +21,7 @@ LEVEL_TEXT = (
     "wrong length, non-hex), through the reader under all fragmentations and built directly from bytes; soundness clauses use a loose "
     "identification grammar, completeness clauses a strict one, so neither direction over-demands. Sampling, not proof."
 )
-RUNS = {"quick": 240000, "thorough": 1500000}
+RUNS = {"quick": 240000, "thorough": 4000000}
 CHUNK = {"quick": 400, "thorough": 3000}
 BUDGET_S = {"quick": 90, "thorough": 1500}
 RULE = (
